@@ -342,3 +342,35 @@ def aliasattr(repo):
                 "hidden bits field is skipped, the alias is printed)", m.rel, ctor.lineno, f.name)
     res.analysed = [m.rel]
     return res
+
+
+def anonhome(repo):
+    """R-ANONHOME (C16/C01): producer/consumer agreement on where the type of an anonymous `bits:` field lives.
+    synthetics._add_anonymous_aliases looks the type up among the *subtypes of the type definition that holds the field*
+    (`for subtype in type_definition.subtype`) and asserts that it finds it.  module_ir creates that type as a subtype of
+    the enclosing body; any module_ir function that empties a body's subtype list to hoist the nested types outwards
+    (`del body.subtype[:]`) must therefore keep the types referenced by the body's own anonymous fields (select by
+    `.is_anonymous` and put them back with `body.subtype.extend(...)`)."""
+    res = RuleResult("R-ANONHOME")
+    syn = repo.mod("compiler/front_end/synthetics.py")
+    cons = [f for f in syn.top_funcs() if f.name == "_add_anonymous_aliases"]
+    if not cons or "type_definition.subtype" not in ast.unparse(cons[0].node):
+        raise AnalysisError("synthetics._add_anonymous_aliases no longer searches type_definition.subtype")
+    mi = repo.mod("compiler/front_end/module_ir.py")
+    for f in mi.funcs.values():
+        for n in walk_no_nested_funcs(f.node):
+            if isinstance(n, ast.Delete) and any(isinstance(t, ast.Subscript) and isinstance(t.value, ast.Attribute) and t.value.attr == "subtype"
+                                                 for t in n.targets):
+                owner = ast.unparse(n.targets[0].value.value)
+                res.instances += 1
+                src = ast.unparse(f.node)
+                keeps = ".is_anonymous" in src and re.search(re.escape(owner) + r"\.subtype\.(extend|append)\(", src)
+                if not keeps:
+                    res.add(f"{mi.rel}|{f.qualname}|hoists-anonymous-types", f"{f.qualname} moves every subtype of `{owner}` out "
+                            f"(`{ast.unparse(n)}`) including the types of `{owner}`'s own anonymous bits fields; "
+                            "synthetics._add_anonymous_aliases then cannot find the type next to its field: AssertionError on "
+                            "`0 [+2] struct payload:` containing `0 [+2] bits:`", mi.rel, n.lineno, f.qualname)
+    if res.instances < 1 and not res.findings:
+        raise AnalysisError("module_ir: no function hoisting subtypes found")
+    res.analysed = [mi.rel, syn.rel]
+    return res
